@@ -29,7 +29,8 @@ HasDup(q) == Len(q) # Cardinality(ToSet(q))
 HopOf(x) == [s |-> x.s, i |-> x.i, pktin |-> x.pktin, out |-> ToSet(x.out),
              dup |-> IF HasDup(x.out) THEN 1 ELSE 0, mod |-> x.mod,
              inst |-> {InstOf(x.inst[k]) : k \in 1..Len(x.inst)},
-             tbl |-> {PatOf(x.tbl[k]) : k \in 1..Len(x.tbl)}, buf |-> x.buf, via |-> "observed"]
+             tbl |-> {PatOf(x.tbl[k]) : k \in 1..Len(x.tbl)}, buf |-> x.buf, via |-> "observed",
+             lrn |-> IF x.pktin > 0 THEN 1 ELSE 0, mv |-> "observed"]
 HopsOf(q) == {HopOf(q[k]) : k \in 1..Len(q)}
 
 Quiet == UNCHANGED <<last, hist>>
@@ -41,7 +42,8 @@ Diagnose(h, dst, sh, hops) ==
   IN IF ~Routed(h, hops) \/ Len(Ev.obs.hops) # Cardinality(hops)
      THEN PrintT(<<"DIAG", tid, l, "route", 0, 0, 0>>)
      ELSE \A hp \in bad :
-            PrintT(<<"DIAG", tid, l, ToJson(Failed(hp.s, hp.i, f, hp)), hp.s, hp.i, hp.pktin>>)
+            /\ PrintT(<<"DIAG", tid, l, ToJson(Failed(hp.s, hp.i, f, hp)), hp.s, hp.i, hp.pktin>>)
+            /\ PrintT(<<"WANT", tid, l, hp.s, ToJson(Demanded(hp.s, hp.i, f, hp))>>)
 
 TrAt ==
   /\ IsEvent("At") /\ Ev.wf
